@@ -12,13 +12,17 @@
        outside X;
    (4) whole runs in simulation time, and in the real-time master model at speed 1, of a simulation
        whose top level holds devices and system simulations of any depth:
-       [C10_run_noninterference], [C10_master_noninterference] below.
-   PARTIAL: for a part added inside a system simulation, interrupts and real-time pacing at other
-   speeds, equality of every old device's observation sequence is decided per pair of runs of the
+       [C10_run_noninterference], [C10_master_noninterference] below;
+   (5) with interrupts ([C10_script_noninterference]): scripts of master ticks and interrupts -- of base
+       components and of components of the added part alike, at any points between the ticks -- on the
+       extended configuration are matched by the script of the same interrupts of base components and a
+       subsequence of the ticks on the base configuration, under which every base device observes the same.
+   PARTIAL: for a part added inside a system simulation, interrupts of devices inside system simulations and
+   real-time pacing at other speeds, equality of every old device's observation sequence is decided per pair of runs of the
    real schedulers (code 91) and, for adapters / EPICS records, on the real adapter classes.
    Property theorems only. *)
 From TV Require Import Base Gen.SourceConsts Model.Topics Model.Wiring Model.Ticker Model.Component Model.Sim
-  Model.SimTime Proofs.TopicsP Proofs.SimP Proofs.FlattenP Proofs.NonInterfP Proofs.FrameP Proofs.AgreeP Proofs.NonInterfNestedP Proofs.NonInterfLoopP Proofs.SimTimeP.
+  Model.SimTime Proofs.TopicsP Proofs.SimP Proofs.FlattenP Proofs.NonInterfP Proofs.FrameP Proofs.AgreeP Proofs.NonInterfNestedP Proofs.NonInterfLoopP Proofs.SimTimeP Model.NSim Proofs.NonInterfScriptP.
 Open Scope Z_scope.
 
 Theorem C10_topics_disjoint : forall a b,
@@ -120,6 +124,40 @@ Proof.
   cbn [snd] in Hfin. subst fin'.
   destruct (run_noninterference cfg cfg' devf isX isXL Hord Hcon fuel Hxk Hsep Hext Hexp Htop n initial (initial + t_end) s1' o1' E') as [s1 [E _]].
   rewrite E in H. destruct H as [_ H]. destruct H' as [_ H']. rewrite H, H'. reflexivity.
+Qed.
+
+(* (5) with interrupts of top-level components between the ticks, of the base and of the added part *)
+Theorem C10_script_noninterference : forall cfg cfg' devf (isX : comp -> bool) (isXL : positive -> bool) fuel,
+  l_order (level_of cfg top) = filter (fun ck : comp * ckind => negb (isX (fst ck))) (l_order (level_of cfg' top)) ->
+  l_conns (level_of cfg top) = filter (oldc isX) (l_conns (level_of cfg' top)) ->
+  (forall ck, In ck (l_order (level_of cfg' top)) -> nkind cfg cfg' isX isXL fuel ck) ->
+  (forall k, In k (l_conns (level_of cfg' top)) -> isX (out_comp k) = isX (in_comp k)) ->
+  isX ext_id = false -> isX exp_id = false -> isXL top = false ->
+  forall initial script',
+  exists script, sub_script isX script script' /\
+    snd (sim_script_from_start cfg devf fuel initial script) =
+    filter (notX isX) (snd (sim_script_from_start cfg' devf fuel initial script')).
+Proof.
+  intros cfg cfg' devf isX isXL fuel Hord Hcon Hxk Hsep Hext Hexp Htop initial script'.
+  exact (script_noninterference cfg cfg' devf isX isXL Hord Hcon fuel Hxk Hsep Hext Hexp Htop initial script').
+Qed.
+
+(* non-vacuity: the chain 3 -> 4 extended by 7 -> 8; interrupts of 4 (base) and 8 (added) and of both sources *)
+Example C10_script_example :
+  let dev : devfun := fun c n t inp => ([(1%positive, Zpos c + n)], if Pos.eqb c 3 then Some (t + 10) else if Pos.eqb c 7 then Some (t + 4) else None) in
+  let l := {| l_order := [(3%positive, KDev); (4%positive, KDev)]; l_conns := [(3, 1, 4, 1)%positive] |} in
+  let l' := {| l_order := [(7%positive, KDev); (3%positive, KDev); (8%positive, KDev); (4%positive, KDev)];
+               l_conns := [(7, 1, 8, 1); (3, 1, 4, 1)]%positive |} in
+  let sc' := [ITick; IStim 8%positive 5; IStim 4%positive 6; ITick; ITick; ITick; IStim 7%positive 9; ITick; ITick; ITick] in
+  let sc := [IStim 4%positive 6; ITick; ITick] in
+  sub_script (fun c => Pos.leb 7 c) sc sc' /\
+  snd (sim_script_from_start [(1%positive, l)] dev 1 0 sc) =
+  filter (notX (fun c => Pos.leb 7 c)) (snd (sim_script_from_start [(1%positive, l')] dev 1 0 sc')) /\
+  length (snd (sim_script_from_start [(1%positive, l)] dev 1 0 sc)) = 5%nat.
+Proof.
+  split; [|vm_compute; split; reflexivity].
+  apply ss_tick_drop. apply ss_stim_new; [reflexivity|]. apply ss_stim_old; [reflexivity|].
+  apply ss_tick_drop. apply ss_tick_keep. apply ss_tick_drop. apply ss_stim_new; [reflexivity|]. apply ss_tick_drop. apply ss_tick_keep. apply ss_tick_drop. constructor.
 Qed.
 
 (* non-vacuity of the run theorem: base 3 -> 4 (3 periodic every 10), extended by 7 -> 8 with 7
